@@ -60,7 +60,7 @@ class LogicalSolver:
         with UnitEnvironment(self.env.units):
             operators = {
                 'par': OperatorPar,        # should be the last of parenthesis operators
-                'eq': OperatorEq, 'ne': OperatorNe,
+                'eq': CustomEq, 'ne': OperatorNe,
                 'not': CustomNot,          # needs to be after OperatorNe
                 'le': OperatorLe, 'ge': OperatorGe,
                 'lt': OperatorLt, 'gt': OperatorGt,
@@ -70,6 +70,14 @@ class LogicalSolver:
                 return es.solve(expr)
                 
 
+class CustomEq(OperatorEq):
+
+    def operate_binary(self, tokens):
+        # datatypes return a plain truth value for ==; the other comparisons return a BooleanType
+        left, right = tokens.get_left(), tokens.get_right()
+        result = (left == right)
+        tokens.put_left(result if isinstance(result, BooleanType) else BooleanType(bool(result)))
+                
 class CustomNot(OperatorNot):
     symbol: str = Sign.NEGATE
 
